@@ -4,6 +4,7 @@
    (r any) where no model exists (the direct evaluation on the implementation still decides). *)
 From LV Require Import Base.Bytes Base.Sx Model.Obj Model.A85 Model.Png Model.Parser Model.RangeMap Model.CMap Model.CMapParser
      Model.Xref Model.ObjStm Model.Safe Model.SafeFilt Model.SafeText Model.SafeXref.
+From LV Require Model.Loader Model.LoaderExt.
 
 Definition class_sx (o : out N) : sx :=
   match o with
@@ -154,6 +155,25 @@ Definition run (x : sx) : sx :=
             end
           end
         | _, _ => sx_id "badcase"
+        end
+      | _ => sx_id "badcase"
+      end
+    else if bytes_eqb kind (bs "loadm") || bytes_eqb kind (bs "incloadm") then
+      (* Reader::read as c01's LoaderExt.load_plain -- the model C04_load_no_panic_partial / C04_load_terminates_partial are
+         about (IncrementalDocument::load_from is read plus a copy of the buffer): class and number of objects *)
+      match args with
+      | [d] =>
+        match as_chunks d with
+        | Some b =>
+          if (MODEL_MAX <? nlen b)%N then any_sx else
+          match LoaderExt.load_plain b with
+          | Loader.LOk doc _ => plain_sx (SOk (nlen (d_objects doc)))
+          | Loader.LErr _ => plain_sx SErr
+          | Loader.LPanic => plain_sx (SPanic ROverflow)
+          | Loader.LOut => plain_sx SFuel
+          | Loader.LUnmodelled => any_sx
+          end
+        | None => sx_id "badcase"
         end
       | _ => sx_id "badcase"
       end
